@@ -94,7 +94,7 @@ def run(tier, replay=None):
                 continue
             group.append((kind, img))
             if len(group) == 4 or k == len(imgs) - 1:
-                h = list(sq.PREFIX) + ["usage"]
+                h = list(sq.PREFIX) + ["hook debug 1", "usage"]     # a debug hook that formats its messages, as a real one does
                 for (kd, im) in group:
                     # a third of the files goes through opn2_openFile (FILE-based reader) instead of opn2_openData
                     h += [("openfiledata " if ctx.rng.random() < 0.33 else "opendata ") + im.hex()] + FOLLOW + ["selectsong %d" % rng_pick(ctx)] + ["usage"]
